@@ -21,8 +21,12 @@ import vlib
 from vlib import mc, tlc, try_cxx, run_harness, write_ndjson
 
 # clang below C++20 (builtin byteswap path), g++ C++20 (bit_cast path), g++ C++11
-CONFIGS_QUICK = [("clang++", "c++17"), ("g++", "c++20"), ("g++", "c++11")]
-CONFIGS_THOROUGH = [(c, s) for c in ("g++", "clang++") for s in ("c++11", "c++14", "c++17", "c++20", "c++2b")]
+# third element "rel": built with SBEPP_DISABLE_ASSERTS (the flavour most applications ship; the
+# repository's tests only build the checked one) - view and visit machines only, the cursor machine
+# has illegal calls whose outcome is the assertion
+CONFIGS_QUICK = [("clang++", "c++17"), ("g++", "c++20", "rel"), ("g++", "c++11")]
+CONFIGS_THOROUGH = [(c, s) for c in ("g++", "clang++") for s in ("c++11", "c++14", "c++17", "c++20", "c++2b")] + \
+                   [("g++", "c++17", "rel"), ("clang++", "c++14", "rel"), ("clang++", "c++2b", "rel")]
 
 INVARIANTS = ["TypeOK", "ImageSizes", "DecodeRefines", "SizesAgree", "StepRefines", "EncodeRefines", "MarginsIntact"]
 
@@ -155,10 +159,15 @@ def run_schema(S, tier, seed, configs, wd, extra_cfg="", machine="view", shapes_
 
     src = os.path.join(vlib.HARNESS, "view_main.cpp")
 
+    def flavour(cfg):
+        rel = len(cfg) > 2 and cfg[2] == "rel" and machine != "cursor"
+        return (["-DVH_RELEASE"] if rel else []), ("-rel" if rel else "")
+
     def build_run(cfg):
-        comp, std = cfg
-        ok, out = try_cxx(src, flags=["-std=" + std, "-O1", "-w", '-DVH_DISPATCH="%s"' % disp], compiler=comp,
-                          includes=[inc], deps=[disp], name="view-%s-%s-%s" % (name, comp, std))
+        comp, std = cfg[0], cfg[1]
+        fl, sfx = flavour(cfg)
+        ok, out = try_cxx(src, flags=["-std=" + std, "-O1", "-w", '-DVH_DISPATCH="%s"' % disp] + fl, compiler=comp,
+                          includes=[inc], deps=[disp], name="view-%s-%s-%s%s" % (name, comp, std, sfx))
         if not ok:
             return cfg, None, out
         mism, stat, p = run_harness(out, ["replay", name, vec], timeout=1200)
@@ -186,9 +195,11 @@ def run_schema(S, tier, seed, configs, wd, extra_cfg="", machine="view", shapes_
     # ---- code -> spec: recorded random in-order encodings validated by ViewTrace.tla
     res["traces"] = []
     if machine == "view" and res["runs"]:
-        comp, std = res["runs"][0]["config"]
-        ok, binary = try_cxx(src, flags=["-std=" + std, "-O1", "-w", '-DVH_DISPATCH="%s"' % disp], compiler=comp,
-                             includes=[inc], deps=[disp], name="view-%s-%s-%s" % (name, comp, std))
+        cfg0 = res["runs"][0]["config"]
+        comp, std = cfg0[0], cfg0[1]
+        fl, sfx = flavour(cfg0)
+        ok, binary = try_cxx(src, flags=["-std=" + std, "-O1", "-w", '-DVH_DISPATCH="%s"' % disp] + fl, compiler=comp,
+                             includes=[inc], deps=[disp], name="view-%s-%s-%s%s" % (name, comp, std, sfx))
         episodes = 3 if tier == "quick" else 12
 
         def trace_msg(mi):
@@ -390,10 +401,10 @@ def fold(v, results, want, prop_note):
         for r in res["runs"]:
             for m in r["mismatches"]:
                 if want(m["case"], m["sig"]):
-                    v.violation(m["sig"], "[%s %s] %s" % (r["config"][0], r["config"][1], m["desc"]),
+                    v.violation(m["sig"], "[%s] %s" % (" ".join(r["config"]), m["desc"]),
                                 {"harness": "view_main", "schema": res["schema"], "config": r["config"], "case": m["case"]})
             evals += r["stat"]["evaluations"]
-            v.part("replay_%s_%s_%s" % (res["schema"], r["config"][0], r["config"][1]),
+            v.part("replay_%s_%s" % (res["schema"], "_".join(r["config"])),
                    evaluations=r["stat"]["evaluations"], per_kind=r["stat"]["per_kind"], distinct=r["stat"]["distinct"])
         v.add(samples=res["samples"][:1])
     return states, trans, evals, nvec
